@@ -2,8 +2,9 @@
    doctrans/emit.py:docstring and doctrans/emitter_utils.py:to_docstring (with its inner _fill,
    _param2docstring_param, _joiner), transcribed as they are.
    The wrapping width (pure_utils.line_length, read from the environment at import) is the explicit
-   parameter [w] everywhere.  Mutation of the caller's param dicts / IR is returned as the second
-   component of the result.  Definitions only. *)
+   parameter [w] everywhere.  The second component of each result is the caller's param / IR after the
+   call; since the three functions now work on copies of the param dicts it is the input itself
+   (proofs/DocEmitFacts.v: emit_param_str_pure, emit_docstring_pure, to_docstring_ir).  Definitions only. *)
 From Coq Require Import List Ascii Bool Arith ZArith.
 From Coq Require String.
 Import String.StringSyntax.
@@ -75,14 +76,16 @@ Definition rest_raw_lines (name : str) (p : param) (emit_doc emit_type emit_defa
             end in
   Ok (cat_options [fst r1; l2], p').
 
-(* emit_param_str((name, _param), style, emit_doc, emit_type, word_wrap, emit_default_doc) *)
+(* emit_param_str((name, _param), style, emit_doc, emit_type, word_wrap, emit_default_doc).
+   The function starts with  _param = dict(_param) : set_default_doc mutates that private copy (the param
+   threaded through the branches below); the caller's param is returned, unchanged, as second component *)
 Definition emit_param_str (w : nat) (name : str) (p : param) (st : style)
            (emit_doc emit_type word_wrap emit_default_doc : bool) : outcome (str * param) :=
   match st with
   | Rest =>
     do lp <- rest_raw_lines name p emit_doc emit_type emit_default_doc;
     do filled <- mapM (fill_or_id word_wrap w) (fst lp);
-    Ok (join [nl] (map (fun s => indent_all_but_first s 1 false) filled), snd lp)
+    Ok (join [nl] (map (fun s => indent_all_but_first s 1 false) filled), p)
   | Numpydoc =>
     do l1 <- (match (if emit_type then truthy_fld (p_typ p) else None) with
               | Some t => do s <- fill_or_id word_wrap w (if is_return name then t else name ++ L " : " ++ t);
@@ -95,7 +98,7 @@ Definition emit_param_str (w : nat) (name : str) (p : param) (st : style)
                           Ok (Some s, snd dp)
               | None => Ok (None, p)
               end);
-    Ok (join [nl] (filter nonempty (cat_options [l1; fst l2])), snd l2)
+    Ok (join [nl] (filter nonempty (cat_options [l1; fst l2])), p)
   | Google =>
     let l1 := match truthy_fld (p_typ p) with
               | Some t => Some (if is_return name then L "  " ++ t ++ L ":"
@@ -107,7 +110,7 @@ Definition emit_param_str (w : nat) (name : str) (p : param) (st : style)
                           Ok (Some ((if is_return name then nl :: L "   " else []) ++ fst dp), snd dp)
               | None => Ok (None, p)
               end);
-    Ok (concat (cat_options [l1; fst l2]), snd l2)
+    Ok (concat (cat_options [l1; fst l2]), p)
   end.
 
 (* ---- params of an IR as scalar-default params; None when some default is an AST node / other object ---- *)
@@ -180,8 +183,8 @@ Definition emit_docstring (w : nat) (st : style) (word_wrap emit_default_doc : b
                  end
                | other => Ok ([], other)
                end);
-    Ok ([nl] ++ doc ++ [nl; nl] ++ nl0 ++ params ++ [nl] ++ fst ret ++ [nl] ++ nl1,
-        mkIR (ir_name i) (ir_type i) (ir_doc i) (gparams_of (snd pl)) (snd ret) (ir_internal i))
+    (* nothing is written into the caller's IR: emit_param_str works on copies of the param dicts *)
+    Ok ([nl] ++ doc ++ [nl; nl] ++ nl0 ++ params ++ [nl] ++ fst ret ++ [nl] ++ nl1, i)
   end.
 
 
@@ -235,8 +238,7 @@ Definition rest_blocks_of_ir (emit_default_doc : bool) (i : ir)
                  end
                | other => Ok (None, other)
                end);
-    Ok (doc, fst pl, fst ret,
-        mkIR (ir_name i) (ir_type i) (ir_doc i) (gparams_of (snd pl)) (snd ret) (ir_internal i))
+    Ok (doc, fst pl, fst ret, i)
   end.
 
 (* ---- emitter_utils.py:to_docstring ---- *)
@@ -333,8 +335,9 @@ Definition to_docstring (w : nat) (i : ir) (emit_default_doc : bool) (st : style
                   else
                     do op <- p2dp (L "return_type") p;
                     match fst op with
-                    | None => Err AttributeError         (* None.rstrip() *)
-                    | Some s => Ok (rstrip s ++ [nl] ++ sep, Has (gparam_of_param (snd op)))
+                    | None => Ok ([], ir_returns i)      (* no prose: renders to None, nothing is emitted *)
+                    | Some s => if nonempty s then Ok (rstrip s ++ [nl] ++ sep, Has (gparam_of_param (snd op)))
+                                else Ok ([], ir_returns i)
                     end
                 | None => Ok ([], ir_returns i)
                 end);
